@@ -157,7 +157,28 @@ def build(model: Model, with_state=True):
     return est
 
 
-def apply_to_estimator(est, step, n):
+def _bound_arg(v, held, what):
+    """a bounds argument of register_system: whole numbers as an integer-typed array or a list of ints, other values as a float
+    array that is read-only in half of the cases (chosen from the content); arrays handed over are remembered in `held`: the
+    caller's arrays never change, whatever is registered later."""
+    if v is None:
+        return None
+    if not np.ndim(v):
+        return float(v)
+    arr = np.asarray(v, dtype=float)
+    pick = int(abs(float(arr.sum())) * 1e6) % 4
+    if arr.size and np.all(arr == np.round(arr)) and pick in (0, 1):
+        arg = gens.as_form(arr, "int" if pick == 0 else "intlist")
+    else:
+        arg = arr.copy()
+        if pick >= 2:
+            arg.flags.writeable = False
+    if isinstance(arg, np.ndarray) and held is not None:
+        held.append((what, arg, arg.tobytes()))
+    return arg
+
+
+def apply_to_estimator(est, step, n, held=None):
     op = step["op"]
     a = lambda v: None if v is None else (np.asarray(v, dtype=float) if np.ndim(v) else float(v))
     if op == "system":
@@ -167,7 +188,7 @@ def apply_to_estimator(est, step, n):
             xd = np.asarray(est.domain, dtype=float)
             src_ = src_[:, step["trim"][0]: src_.shape[1] - step["trim"][1]]
             tkw["domain"] = xd[step["trim"][0]: len(xd) - step["trim"][1]].copy()
-        est.register_system(src_, lb=a(step.get("lb")), ub=a(step.get("ub")), **tkw)
+        est.register_system(src_, lb=_bound_arg(step.get("lb"), held, "lb of register_system"), ub=_bound_arg(step.get("ub"), held, "ub of register_system"), **tkw)
     elif op == "adaptation":
         est.register_adaptation(a(step["K"]))
     elif op == "baseline":
@@ -296,6 +317,7 @@ def run_history(case, heavy):
         est = build(model, with_state=False)
     labs = []
     hist = []
+    held = []
     steps = case["steps"]
     for si, step in enumerate(steps):
         hist.append(short(step))
@@ -303,7 +325,7 @@ def run_history(case, heavy):
         before = snapshot(est)
         expected_exc = model.apply(step)
         try:
-            apply_to_estimator(est, step, n_before)
+            apply_to_estimator(est, step, n_before, held)
             raised = None
         except AssertionError as e:
             raised = AssertionError
@@ -318,6 +340,8 @@ def run_history(case, heavy):
             continue
         if raised is not None:
             raise Violation(f"step:{step['op']}:unexpected-assertion", f"history {hist}: the call was rejected although its precondition holds")
+        for what, arr, snap in held:
+            check(arr.tobytes() == snap, "history:caller-array-modified", f"after {hist}: the array handed over as {what} was modified by a later call")
         if step["op"] == "fit":
             fit_update(est, model, hist)
         if case.get("check_every_step", False) or si == len(steps) - 1:
@@ -507,6 +531,8 @@ def random_history(draw):
         if op == "system":
             n = draw(st.integers(2, 5))
             ub = draw(st.one_of(st.none(), gens.array((n,), 0.5, 5.0, styles=("raw",))))
+            if ub is not None and draw(st.integers(0, 2)) == 0:
+                ub = [float(max(1, round(u))) for u in ub]          # whole-number bounds (handed over as integers, see _bound_arg)
             lb = draw(st.one_of(st.none(), st.just([0.0] * n)))
             if ub is not None and draw(st.integers(0, 2)) == 0:
                 lb = [0.1 * u for u in ub]
